@@ -26,6 +26,7 @@ RULE = (
     "on_deleted(src); both -> on_moved when both are in the window, nothing when both are outside, unspecified "
     "(counted, not judged) when they differ; directory events never dispatch. Each enumerated tuple is distinct; "
     "non-trivial = near-miss path, stamp on a window edge, or a move."
+    ' Additionally a file of a sub-second cadence with window edges off the millisecond grid, naive datetimes, ignore_regexes for names that can never match, synthetic events; and three LIVE scenarios with the real DirWatcher threads (tree present at start and growing, root arriving complete after the start, root deleted and replaced) judged with the sentinel protocol of vlib/live.py.'
 )
 ASSUMPTIONS = ["fixed parts in lower case and files at the format's depth (the property's grammar)",
                "events are fed to DigitalRFEventHandler.dispatch directly; no observer thread is started"]
